@@ -242,7 +242,7 @@ def tlc(module, cfg, workdir=None, workers=None, timeout=600, env_extra=None, ex
     return r
 
 
-def apalache(module, init, inv, length, timeout=600):
+def apalache(module, init, inv, length, timeout=600, heap=None):
     """Apalache (symbolic, unbounded integers): `check --init --inv --length` on spec/<module>.tla in a scratch directory.
     Returns (ok, tail of the output, seconds).  Used for inductive-invariant steps; a failure is a specification matter."""
     wd = scratch_dir("apalache")
@@ -252,8 +252,11 @@ def apalache(module, init, inv, length, timeout=600):
                 shutil.copyfile(os.path.join(SPEC, f), os.path.join(wd, f))
         t0 = time.time()
         try:
+            env = dict(os.environ)
+            if heap:
+                env["JVM_ARGS"] = "-Xmx" + heap
             p = subprocess.run(["apalache-mc", "check", "--init=" + init, "--inv=" + inv, "--length=%d" % length, "--out-dir=" + os.path.join(wd, "_out"), module + ".tla"],
-                               cwd=wd, stdout=subprocess.PIPE, stderr=subprocess.STDOUT, text=True, timeout=timeout)
+                               cwd=wd, env=env, stdout=subprocess.PIPE, stderr=subprocess.STDOUT, text=True, timeout=timeout)
             out = p.stdout
         except (subprocess.TimeoutExpired, OSError) as e:
             raise Inconclusive("apalache-mc %s %s/%s: %s" % (module, init, inv, e))
